@@ -148,3 +148,459 @@ func TestVerifC02Stale(t *testing.T) {
 	v.mu.Unlock()
 	out.emit(vM{"k": "x", "phase": "b reported 4, c reported 5", "isr": v.isrOffsets(), "hw": v.p.log.HighWatermark(), "all_acks": acks})
 }
+
+// ---- the protocol driver ----
+
+type vEnt struct {
+	ep uint64
+	id int
+}
+
+type vCluster struct {
+	v       *vPart
+	sims    map[string]*vSimLeader
+	logs    map[string][]vEnt // b, c
+	hws     map[string]int64  // b, c
+	leader  string
+	epoch   uint64
+	isr     []string
+	view    map[string]int64 // a sim leader's view
+	synced  map[string]bool
+	minISR  int
+	viol    string
+	vsig    string
+	steps   []vM
+	commitd []vEnt // longest prefix ever committed
+}
+
+func (c *vCluster) violation(sig, what string) {
+	if c.viol == "" {
+		c.viol, c.vsig = what, sig
+	}
+}
+
+func (c *vCluster) part() *partition { return c.v.srv.s.metadata.GetPartition(c.v.stream, 0) }
+
+func (c *vCluster) logOf(r string) []vEnt {
+	if r != "a" {
+		return c.logs[r]
+	}
+	var out []vEnt
+	for _, e := range vLogDump(c.part()) {
+		var id int
+		fmt.Sscanf(e["v"].(string), "v%d", &id)
+		out = append(out, vEnt{e["ep"].(uint64), id})
+	}
+	return out
+}
+
+func (c *vCluster) hwOf(r string) int64 {
+	if r == "a" {
+		return c.part().log.HighWatermark()
+	}
+	return c.hws[r]
+}
+
+func (c *vCluster) inISR(r string) bool {
+	for _, x := range c.isr {
+		if x == r {
+			return true
+		}
+	}
+	return false
+}
+
+func vLastEpoch(l []vEnt) uint64 {
+	if len(l) == 0 {
+		return 0
+	}
+	return l[len(l)-1].ep
+}
+
+// simCommit: the commit rule of a phantom leader (the model's).
+func (c *vCluster) simCommit() {
+	if len(c.isr) < c.minISR || len(c.isr) == 0 {
+		return
+	}
+	m := c.view[c.isr[0]]
+	for _, r := range c.isr[1:] {
+		if c.view[r] < m {
+			m = c.view[r]
+		}
+	}
+	if m > c.hws[c.leader] {
+		c.hws[c.leader] = m
+	}
+}
+
+func (c *vCluster) appendSim(r string, e vEnt) {
+	c.logs[r] = append(c.logs[r], e)
+	c.sims[r].appendMsg(e.ep, fmt.Sprintf("v%d", e.id))
+}
+
+func (c *vCluster) truncateSim(r string, n int) {
+	if n < len(c.logs[r]) {
+		c.logs[r] = c.logs[r][:n]
+		c.sims[r].mu.Lock()
+		c.sims[r].log.Truncate(int64(n))
+		c.sims[r].epochs = c.sims[r].epochs[:n]
+		c.sims[r].mu.Unlock()
+	}
+}
+
+func (c *vCluster) waitRealSettled() {
+	p := c.part()
+	last, stable := int64(-2), 0
+	for i := 0; i < 600 && stable < 8; i++ {
+		time.Sleep(3 * time.Millisecond)
+		cur := p.log.NewestOffset()*1000003 + p.log.HighWatermark()
+		if cur == last {
+			stable++
+		} else {
+			stable, last = 0, cur
+		}
+	}
+}
+
+func (c *vCluster) observe(step vM) {
+	if c.leader == "a" {
+		c.v.p = c.part()
+		c.v.settle()
+	} else {
+		c.waitRealSettled()
+	}
+	enc := func(l []vEnt) [][]uint64 {
+		out := [][]uint64{}
+		for _, e := range l {
+			out = append(out, []uint64{e.ep, uint64(e.id)})
+		}
+		return out
+	}
+	view := map[string]int64{}
+	if c.leader == "a" {
+		view = c.v.isrOffsets()
+	} else {
+		for _, r := range c.isr {
+			view[r] = c.view[r]
+		}
+	}
+	step["leader"], step["epoch"], step["isr"] = c.leader, c.epoch, append([]string{}, c.isr...)
+	step["logs"] = vM{"a": enc(c.logOf("a")), "b": enc(c.logOf("b")), "c": enc(c.logOf("c"))}
+	step["hws"] = vM{"a": c.hwOf("a"), "b": c.hwOf("b"), "c": c.hwOf("c")}
+	step["view"] = view
+	c.steps = append(c.steps, step)
+	// direct oracle: the property's words
+	ll := c.logOf(c.leader)
+	if h := int(c.hwOf(c.leader)); h+1 > len(c.commitd) && h < len(ll) {
+		c.commitd = append([]vEnt{}, ll[:h+1]...)
+	}
+	for i, e := range c.commitd {
+		if i >= len(ll) || ll[i] != e {
+			c.violation("committed-message-lost", fmt.Sprintf("offset %d was committed holding message v%d (epoch %d); the current leader %s holds %v there", i, e.id, e.ep, c.leader, func() interface{} {
+				if i < len(ll) {
+					return ll[i]
+				}
+				return "nothing"
+			}()))
+			break
+		}
+	}
+	names := []string{"a", "b", "c"}
+	for i := 0; i < 3; i++ {
+		for j := i + 1; j < 3; j++ {
+			l1, l2 := c.logOf(names[i]), c.logOf(names[j])
+			h := c.hwOf(names[i])
+			if h2 := c.hwOf(names[j]); h2 < h {
+				h = h2
+			}
+			for o := 0; o <= int(h) && o < len(l1) && o < len(l2); o++ {
+				if l1[o] != l2[o] {
+					c.violation("replicas-diverge-below-hw", fmt.Sprintf("replicas %s and %s have high watermarks >= %d but hold different messages at offset %d: v%d (epoch %d) and v%d (epoch %d)",
+						names[i], names[j], h, o, l1[o].id, l1[o].ep, l2[o].id, l2[o].ep))
+				}
+			}
+		}
+	}
+}
+
+func (c *vCluster) raftOp(op *proto.RaftLog) error {
+	ctx, cancel := context.WithTimeout(context.Background(), 10*time.Second)
+	defer cancel()
+	f, err := c.v.srv.s.getRaft().applyOperation(ctx, op, nil)
+	if err != nil {
+		return err
+	}
+	return f.Error()
+}
+
+func TestVerifC02(t *testing.T) {
+	out := vOpenOut()
+	defer out.close()
+	stats := map[string]int{}
+	r := vNewRand(vSeed() + 2)
+	n := vEnvInt("VERIF_N", 6)
+	for _, minISR := range []int{1, 2} {
+		srv := vStartServer("a", func(cfg *Config) {
+			vPartConfig(minISR)(cfg)
+			cfg.Clustering.ReplicaMaxIdleWait = 4 * time.Second
+			cfg.Clustering.ReplicaMaxLeaderTimeout = time.Hour
+			cfg.Clustering.ReplicaFetchTimeout = 2 * time.Second
+		})
+		for k := 0; k < n; k++ {
+			name := fmt.Sprintf("s%d_%d", minISR, k)
+			v, err := vNewPart(srv, name, []string{"a", "b", "c"}, nil)
+			if err != nil {
+				t.Fatal(err)
+			}
+			c := &vCluster{v: v, sims: map[string]*vSimLeader{}, logs: map[string][]vEnt{}, hws: map[string]int64{"b": -1, "c": -1},
+				leader: "a", isr: []string{"a", "b", "c"}, view: map[string]int64{}, synced: map[string]bool{"a": true, "b": true, "c": true}, minISR: minISR}
+			_, c.epoch = v.p.GetLeader()
+			for _, nme := range []string{"b", "c"} {
+				c.sims[nme] = vNewSimLeader(v, nme)
+				c.sims[nme].gated = true
+			}
+			nextID := 0
+			c.observe(vM{"op": "start"})
+			nsteps := 12 + r.intn(22)
+			for j := 0; j < nsteps && c.viol == ""; j++ {
+				others := func(pred func(string) bool) []string {
+					var out []string
+					for _, x := range []string{"a", "b", "c"} {
+						if x != c.leader && pred(x) {
+							out = append(out, x)
+						}
+					}
+					return out
+				}
+				switch r.pick(10, 10, 3, 5, 2, 2) {
+				case 0: // publish
+					nextID++
+					if c.leader == "a" {
+						c.v.p = c.part()
+						c.v.publish(fmt.Sprintf("p%d", nextID), nil, []byte(fmt.Sprintf("v%d", nextID)), client.AckPolicy_LEADER, -1)
+					} else {
+						c.appendSim(c.leader, vEnt{c.epoch, nextID})
+						c.view[c.leader] = int64(len(c.logs[c.leader]) - 1)
+						c.simCommit()
+						c.sims[c.leader].mu.Lock()
+						c.sims[c.leader].hw = c.hws[c.leader]
+						c.sims[c.leader].mu.Unlock()
+					}
+					stats["step/publish"]++
+					c.observe(vM{"op": "publish", "v": nextID})
+				case 1: // fetch
+					cands := others(func(x string) bool { return c.synced[x] })
+					if len(cands) == 0 {
+						continue
+					}
+					f := cands[r.intn(len(cands))]
+					k := 1 + r.intn(4)
+					if c.leader == "a" {
+						c.v.p = c.part()
+						c.v.follower(f, int64(len(c.logs[f])-1))
+						c.v.settle()
+						ll := c.logOf("a")
+						for i := 0; i < k && len(c.logs[f]) < len(ll); i++ {
+							c.appendSim(f, ll[len(c.logs[f])])
+						}
+						if h := c.part().log.HighWatermark(); h > c.hws[f] {
+							c.hws[f] = h
+						}
+					} else if f == "a" {
+						L := c.sims[c.leader]
+						L.mu.Lock()
+						L.onFetch = func(reported int64) {
+							if c.inISR("a") && reported > c.view["a"] {
+								c.view["a"] = reported
+							}
+							c.simCommit()
+							L.hw = c.hws[c.leader]
+						}
+						L.budget = k
+						L.mu.Unlock()
+						L.wakeFollower()
+						select {
+						case <-L.served:
+						case <-time.After(8 * time.Second):
+							c.violation("follower-never-fetched", "the real follower did not send a replication request within 8 s of being notified")
+						}
+					} else {
+						if c.inISR(f) {
+							if o := int64(len(c.logs[f]) - 1); o > c.view[f] {
+								c.view[f] = o
+							}
+							c.simCommit()
+						}
+						ll := c.logs[c.leader]
+						for i := 0; i < k && len(c.logs[f]) < len(ll); i++ {
+							c.appendSim(f, ll[len(c.logs[f])])
+						}
+						if c.hws[c.leader] > c.hws[f] {
+							c.hws[f] = c.hws[c.leader]
+						}
+						c.sims[c.leader].mu.Lock()
+						c.sims[c.leader].hw = c.hws[c.leader]
+						c.sims[c.leader].mu.Unlock()
+					}
+					stats["step/fetch"]++
+					c.observe(vM{"op": "fetch", "r": f, "n": k})
+				case 2: // elect
+					cands := others(func(x string) bool { return c.synced[x] && c.inISR(x) })
+					if len(cands) == 0 {
+						continue
+					}
+					nl := cands[r.intn(len(cands))]
+					old := c.leader
+					if nl == "a" {
+						for _, s := range c.sims {
+							s.mu.Lock()
+							s.epoch = 0
+							s.mu.Unlock()
+						}
+						e, err := c.sims[old].handBack()
+						if err != nil {
+							c.violation("election-failed", err.Error())
+							break
+						}
+						c.leader, c.epoch = "a", e
+						c.synced = map[string]bool{"a": true}
+						stats["step/elect-real"]++
+						c.observe(vM{"op": "elect", "r": "a", "e": e})
+					} else {
+						if old != "a" {
+							c.sims[old].mu.Lock()
+							c.sims[old].epoch = 0
+							c.sims[old].mu.Unlock()
+						}
+						sl := c.sims[nl]
+						sl.mu.Lock()
+						sl.hw, sl.hwSent = c.hws[nl], c.hwOf("a") // unscheduled requests are answered with the HW a already has
+						sl.asked = nil
+						sl.mu.Unlock()
+						// the real server learns of the new leader by applying the operation and, if it is not
+						// reconciled yet, reconciles at once: that is the next step of the history
+						wasFollowing := old != "a"
+						e, err := sl.lead()
+						if err != nil {
+							c.violation("election-failed", err.Error())
+							break
+						}
+						c.leader, c.epoch = nl, e
+						c.view = map[string]int64{}
+						for _, x := range c.isr {
+							c.view[x] = -1
+						}
+						c.view[nl] = int64(len(c.logs[nl]) - 1)
+						c.synced = map[string]bool{nl: true}
+						stats["step/elect-phantom"]++
+						c.observe(vM{"op": "elect", "r": nl, "e": e})
+						// a reconciles (becomeFollower -> truncateUncommitted) as part of applying the change
+						deadline := time.Now().Add(5 * time.Second)
+						for time.Now().Before(deadline) {
+							sl.mu.Lock()
+							asked := len(sl.asked)
+							sl.mu.Unlock()
+							if asked > 0 {
+								break
+							}
+							time.Sleep(5 * time.Millisecond)
+						}
+						_ = wasFollowing
+						c.synced["a"] = true
+						c.observe(vM{"op": "reconcile", "r": "a"})
+					}
+				case 3: // reconcile a phantom follower
+					cands := others(func(x string) bool { return !c.synced[x] && x != "a" })
+					if len(cands) == 0 {
+						continue
+					}
+					f := cands[r.intn(len(cands))]
+					q := vLastEpoch(c.logs[f])
+					var ans int64
+					if c.leader == "a" {
+						c.v.p = c.part()
+						a, err := vAskLeaderOffset(c.v, q)
+						if err != nil {
+							c.violation("leader-offset-request-failed", err.Error())
+							break
+						}
+						ans = a
+					} else {
+						ans = c.sims[c.leader].lastOffsetUpTo(q)
+					}
+					c.truncateSim(f, int(ans+1))
+					c.synced[f] = true
+					stats["step/reconcile"]++
+					c.observe(vM{"op": "reconcile", "r": f, "answer": ans, "q": q})
+				case 4: // shrink
+					cands := others(func(x string) bool { return c.inISR(x) })
+					if len(cands) == 0 {
+						continue
+					}
+					f := cands[r.intn(len(cands))]
+					if c.leader == "a" {
+						c.v.p = c.part()
+						if err := c.v.shrink(f); err != nil {
+							c.violation("shrink-failed", err.Error())
+							break
+						}
+					} else {
+						if err := c.raftOp(&proto.RaftLog{Op: proto.Op_SHRINK_ISR, ShrinkISROp: &proto.ShrinkISROp{Stream: v.stream, Partition: 0, ReplicaToRemove: f, Leader: c.leader, LeaderEpoch: c.epoch}}); err != nil {
+							c.violation("shrink-failed", err.Error())
+							break
+						}
+					}
+					var isr []string
+					for _, x := range c.isr {
+						if x != f {
+							isr = append(isr, x)
+						}
+					}
+					c.isr = isr
+					delete(c.view, f)
+					if c.leader != "a" {
+						c.simCommit()
+						c.sims[c.leader].mu.Lock()
+						c.sims[c.leader].hw = c.hws[c.leader]
+						c.sims[c.leader].mu.Unlock()
+					}
+					stats["step/shrink"]++
+					c.observe(vM{"op": "shrink", "r": f})
+				default: // expand
+					cands := others(func(x string) bool { return !c.inISR(x) && c.synced[x] && len(c.logOf(x)) == len(c.logOf(c.leader)) })
+					if len(cands) == 0 {
+						continue
+					}
+					f := cands[r.intn(len(cands))]
+					if c.leader == "a" {
+						c.v.p = c.part()
+						if err := c.v.expand(f); err != nil {
+							c.violation("expand-failed", err.Error())
+							break
+						}
+					} else {
+						if err := c.raftOp(&proto.RaftLog{Op: proto.Op_EXPAND_ISR, ExpandISROp: &proto.ExpandISROp{Stream: v.stream, Partition: 0, ReplicaToAdd: f, Leader: c.leader, LeaderEpoch: c.epoch}}); err != nil {
+							c.violation("expand-failed", err.Error())
+							break
+						}
+					}
+					c.isr = append(c.isr, f)
+					c.view[f] = -1
+					stats["step/expand"]++
+					c.observe(vM{"op": "expand", "r": f})
+				}
+			}
+			cj := vM{"k": "repl", "id": fmt.Sprintf("%d/%d", minISR, k), "minisr": minISR, "steps": c.steps}
+			if c.viol != "" {
+				out.emit(vM{"k": "violation", "sig": c.vsig, "what": c.viol, "case": cj})
+			}
+			out.emit(cj)
+			for _, s := range c.sims {
+				s.close()
+			}
+			v.close()
+		}
+		srv.stop()
+	}
+	out.emit(vM{"k": "stat", "dist": stats})
+}
